@@ -136,3 +136,5 @@ TRUSTED = [
     "torch.sort / narrow / mean / topk / cdist / one_hot obey their pointwise documentation (primitive contracts [T])",
     "bridge lemma self_distance_first and trimmed_mean_bounds (Lean) turn the plumbing postcondition into the statement",
 ]
+
+VALIDATE_ALGEBRAIC_PRIMS = True  # [V] the algebraic primitive contracts are sampled against real torch on every run
